@@ -86,7 +86,7 @@ func main() {
 	}
 	var failing []string
 	total := 0
-	for _, where := range []string{"AState", "AState-revsub", "QueueEnd"} {
+	for _, where := range []string{"AState", "AState-revsub", "QueueEnd", "Eval"} {
 	for _, vetoC := range []bool{false, true} {
 		for _, script := range scripts {
 			// "-revsub": the WhenQueue subscriptions are taken after all the script's mutations
@@ -141,7 +141,7 @@ func main() {
 						waits = append(waits, m.WhenQueue(r))
 						waitTicks = append(waitTicks, uint64(r))
 					}
-					if where == "QueueEnd" && !(o.add && o.name == "C" && vetoC) {
+					if (where == "QueueEnd" || where == "Eval") && !(o.add && o.name == "C" && vetoC) {
 						expect[o.name] = o.add
 					}
 				}
@@ -153,13 +153,17 @@ func main() {
 						}
 					}
 				}
-				if len(log) != before && where != "QueueEnd" {
+				if len(log) != before && where != "QueueEnd" && where != "Eval" {
 					nestedRan = true
 				}
 				inHandler = false
 			}
 			fin := map[string]am.HandlerFinal{}
-			if where != "QueueEnd" {
+			if where == "Eval" {
+				// issued from inside an Eval func on the idle machine (after Add A): executed or
+				// queued and drained when the eval ends - never stranded
+				expect = map[string]bool{"A": true}
+			} else if where != "QueueEnd" {
 				fin["AState"] = func(e *am.Event) { runScript() }
 			} else {
 				// after the drain loop: the queue is not being processed any more, so a
@@ -171,6 +175,9 @@ func main() {
 				panic(err)
 			}
 			m.Add1("A", nil)
+			if where == "Eval" {
+				m.Eval("verif-c04", runScript, nil)
+			}
 			_ = inHandler
 			bad := ""
 			if nestedRan {
@@ -213,13 +220,13 @@ func main() {
 			}
 			for n, on := range expect {
 				if m.Is1(n) != on {
-					bad = fmt.Sprintf("mutation issued from the tracer's QueueEnd hook had no effect: %s active=%v, want %v (queue length %d)", n, m.Is1(n), on, m.QueueLen())
+					bad = fmt.Sprintf("mutation issued after the drain loop (QueueEnd hook / Eval func) had no effect: %s active=%v, want %v (queue length %d)", n, m.Is1(n), on, m.QueueLen())
 				}
 			}
 			if lateOpen != "" {
 				bad = lateOpen
 			}
-			if where != "QueueEnd" && len(log)/2 != 1+queued {
+			if where != "QueueEnd" && where != "Eval" && len(log)/2 != 1+queued {
 				bad = fmt.Sprintf("%d transitions executed for %d queued mutations: %s", len(log)/2, 1+queued, strings.Join(log, " "))
 			}
 			cancel()
